@@ -128,6 +128,19 @@ func CorpusTypes(seed int64, tier string) []*Case {
 				cases = append(cases, &Case{Origin: "types:" + sh.Name + ":order-srcnamed-alpha", Src: src3, Cfg: cfg, Judge: baseJudge})
 			}
 		}
+		if sh.Name == "Local" {
+			// the wrapper pattern: the source package imports a dependency under its OWN
+			// name, and a source type is met before the first type of that dependency
+			it4 := Iface{Name: "Wrapper", Methods: []Method{
+				meth("Aa", ps(par("l", t)), ps(par("", t))),
+				meth("Bb", ps(par("x", Named(1, "T"))), ps(par("", Named(1, "U")))),
+			}, Aliases: []map[int]string{{}, {1: "wrap"}}}
+			src4 := newSrc("wrap", pkgs, it4)
+			for _, cfg := range []Cfg{{Dest: "other"}, {Dest: "other", SkipEnsure: true}, {Dest: "srcTest", Stub: true}, {Dest: "implicit", WithResets: true}} {
+				cfg.Args = []string{"Wrapper"}
+				cases = append(cases, &Case{Origin: "types:wrapper-alias-is-source-name", Src: src4, Cfg: cfg, Judge: baseJudge})
+			}
+		}
 		// the same interface in a source package that is itself called like one of
 		// its dependencies (matters when the mock lives in another package)
 		if len(shapePkgs(t)) > 0 {
@@ -470,6 +483,18 @@ func CorpusFlags(seed int64, tier string) []*Case {
 		{Name: "Namey", Methods: []Method{meth("Http", ps(par("req", Basic("string"))), nil), meth("Id", nil, ps(par("", Basic("int")))), meth("Json", ps(par("v", Slice(Basic("byte")))), ps(par("", errT))),
 			meth("Url", nil, ps(par("", Basic("string")), par("", errT))), meth("Uuid", ps(par("n", Basic("int"))), nil)}},
 		{Name: "Vari", Methods: []Method{{Name: "Log", Params: ps(par("format", Basic("string")), par("args", Slice(AliasT("any")))), Results: []Param{}, Variadic: true}}},
+	}
+	// a dependency whose directory is not called like its package, imported under
+	// an explicit alias equal to its real name (what goimports itself writes), with a
+	// standard-library namesake that offers the same symbol
+	jsonDep := Pkg{Path: DepPath("d", "x", "fast-json"), Name: "json", Extra: "\ntype RawMessage []byte\n"}
+	codec := Iface{Name: "Codec", OneFile: true, Aliases: []map[int]string{{0: "json"}}, Methods: []Method{
+		meth("Encode", ps(par("m", Named(0, "RawMessage"))), ps(par("", Named(0, "RawMessage")), par("", errT)))}}
+	jsrc := newSrc("jsrc", []Pkg{jsonDep}, codec)
+	for _, cfg := range []Cfg{{Dest: "implicit"}, {Dest: "other"}, {Dest: "other", SkipEnsure: true, Stub: true}} {
+		cfg.Args = []string{"Codec"}
+		cases = append(cases, &Case{Origin: "flags:alias-equals-name-stdlib-namesake", Src: jsrc, Cfg: cfg, RunFmts: true,
+			Judge: []string{"C01", "C02", "C10", "C11", "C16", "C19"}})
 	}
 	src := newSrc("fsrc", pkgs, ifs...)
 	for ci, cfg := range allCfgs() {
